@@ -462,6 +462,39 @@ def t_every_protocol(ctx, lo, hi):
                         'not containing it / singleton')
 
 
+def t_every_other_number(ctx):
+    """every known-but-unsupported protocol and a table of unusual integers
+    as the server's answer: always a mismatch naming that number, never a
+    fallback (0 is a real protocol number; falsy values are not 'absent')"""
+    sup, names, known = tables()
+    odd = [0, -1, 1, 2, 3, -2 ** 31, 2 ** 31 - 1, 2 ** 31, 2 ** 63, 10 ** 6,
+           99999, 758, PRE | 1000, PRE, 255, 256]
+    for p in [q for q in known if q not in sup] + odd:
+        if p in sup:
+            continue
+        for nm in (None, 'x'):
+            v = {'protocol': p}
+            if nm:
+                v['name'] = nm
+            reply = {'kind': 'proto', 'protocol': p, 'name': nm,
+                     'json': json.dumps({'version': v})}
+            scenario_case(ctx, {'allowed': None, 'default': None,
+                                'reply': reply, 'entry': 'connect',
+                                'username': 'u'})
+            scenario_case(ctx, {'allowed': [(sup[0], 'num'), (sup[-1], 0)],
+                                'default': (sup[0], 'num'), 'reply': reply,
+                                'entry': 'connect', 'username': 'u'})
+    # falsy-but-present values of the other keys must not count as absent
+    for js, kind in (('{"version": {"protocol": 0, "name": ""}}', 'proto'),):
+        scenario_case(ctx, {'allowed': None, 'default': None,
+                            'reply': {'kind': 'proto', 'protocol': 0,
+                                      'name': None, 'json': js},
+                            'entry': 'connect', 'username': 'u'})
+    ctx.sample({'reply_protocol': 0, 'allowed': 'all'}, 'every_other_number')
+    ctx.exhaustive_done('every known-but-unsupported protocol and 16 '
+                        'unusual integers as the server answer')
+
+
 def t_status_modes(ctx):
     sup, names, known = tables()
     for hs in ('default', 'fn', 'false'):
@@ -494,7 +527,8 @@ def tasks(tier):
     q = tier == 'quick'
     sup, names, known = tables()
     n = len(sup)
-    tl = [('status_modes', t_status_modes, {})]
+    tl = [('status_modes', t_status_modes, {}),
+          ('every_other_number', t_every_other_number, {})]
     nsh = 5
     for i in range(nsh):
         tl.append(('every_protocol_%d' % i, t_every_protocol,
